@@ -115,9 +115,11 @@ def sle_trace(seed, tid):
     rng = random.Random(seed)
     w = dl.SLEWorld(rng)
     steps = []
-    for n in range(rng.randint(1, 4)):
+    for n in range(rng.randint(1, 5)):
         if n and rng.random() < 0.4:
             w.change_solvents(rng)
+        if n and rng.random() < 0.3:
+            w.switch_solute()
         T = rng.uniform(250, 450)
         sol = rng.choice([None, None, None, 0.001, 0.05, 0.3, 0.9, 0., 1.])
         obs = w.sle(T, sol)
